@@ -31,19 +31,18 @@ Definition argmax (l : list ph) : nat :=
               argmax_f (map (fun q => (p_int q - approx) + p_frac q) l)
   end.
 
-(* argsort: np.lexsort((remainder, approx)) with approx = cycle, remainder = (self - approx).cycle ; stable *)
-Definition remainder (p : ph) : float :=
-  match op_addsub true (OPh p) (ONum (NReal (cycle p))) with RPh r => cycle r | _ => nan end.
-Definition key_le (a b : float * float * nat) : bool :=      (* (approx, remainder, index): a sorts before-or-equal b *)
-  let '(aa, ar, _) := a in let '(ba, br, _) := b in
-  (aa <? ba) || ((aa =? ba) && (ar <=? br)).
+(* argsort: np.lexsort((frac, int)) on the two stored doubles - a normalised phase (integer count, fraction in [-1/2, 1/2]) is ordered
+   exactly by (count, fraction); stable *)
+Definition key_le (a b : float * float * nat) : bool :=      (* (count, fraction, index): a sorts before-or-equal b *)
+  let '(ai, af, _) := a in let '(bi, bf, _) := b in
+  (ai <? bi) || ((ai =? bi) && (af <=? bf)).
 Fixpoint insert_stable (x : float * float * nat) (l : list (float * float * nat)) : list (float * float * nat) :=
   match l with
   | [] => [x]
   | y :: r => if key_le y x then y :: insert_stable x r else x :: l      (* after every element that is <= x *)
   end.
 Definition argsort (l : list ph) : list nat :=
-  let keyed := map (fun ip => (cycle (snd ip), remainder (snd ip), fst ip)) (combine (seq 0 (length l)) l) in
+  let keyed := map (fun ip => (p_int (snd ip), p_frac (snd ip), fst ip)) (combine (seq 0 (length l)) l) in
   map (fun k => snd k) (fold_left (fun acc x => insert_stable x acc) keyed []).
 
 Definition nth_ph (l : list ph) (i : nat) : ph := nth i l {| p_int := nan; p_frac := nan; p_imag := false |}.
